@@ -56,6 +56,10 @@ def build_ballot(b, nm=None):
     return Ballot(**kw)
 
 
+class StandardizeMismatch(Exception):
+    pass
+
+
 def build_ballots(bl, nm=None):
     return tuple(build_ballot(b, nm) for b in bl)
 
@@ -245,6 +249,13 @@ def c11_work(inp):
                                 for k, v in p.to_ranking_dict().items()]
                     d3 = dict(NOOUT)
                     d3["bl"] = [{"r": [], "s": sorted([_name(inv, c), rat(s)] for c, s in k), "w": rat(v)} for k, v in p.to_scores_dict().items()]
+                    # standardize=True: the same dictionaries with every weight divided by the profile's total weight
+                    tot = p.total_ballot_wt
+                    if tot > 0:
+                        for plain, std in ((p.to_ballot_dict(), p.to_ballot_dict(standardize=True)), (p.to_ranking_dict(), p.to_ranking_dict(standardize=True)),
+                                           (p.to_scores_dict(), p.to_scores_dict(standardize=True))):
+                            if set(plain) != set(std) or any(std[k] * tot != plain[k] for k in plain):
+                                raise StandardizeMismatch("a standardized dictionary is not the plain one divided by the total weight")
                     return [d1, d2, d3]
                 try:
                     with quiet():
